@@ -1,4 +1,11 @@
 #!/bin/sh
+# Build the framework offline from files on disk: Lean libraries + model driver, system-call interposer.
 set -e
 cd "$(dirname "$0")"
-exit 0
+mkdir -p evidence replays corpus
+( cd lean && lake build 2>&1 | grep -v '^trace' | tail -5 )
+if [ -f interpose/interpose.c ]; then
+  gcc -O2 -shared -fPIC -o interpose/interpose.so interpose/interpose.c -ldl -lpthread
+fi
+test -x lean/.lake/build/bin/driver
+echo setup-ok
